@@ -258,6 +258,10 @@ func init() {
 		}
 		return nil
 	})
+	reg(ndPkg+".ExploreMapOrders", func(in *Interp, fr *frame, a []Value) Value {
+		in.mapOrders = a[0].(*Term).c != 0
+		return nil
+	})
 	reg(ndPkg+".PreemptionBound", func(in *Interp, fr *frame, a []Value) Value {
 		in.preemptionBound = int(in.concInt(a[0]))
 		return nil
@@ -599,6 +603,19 @@ func init() {
 			return m
 		}
 		return Iface{t: m.t, v: in.deepCopyPtr(p)}
+	})
+
+	// proto.Equal on generated message structs: field-wise comparison of the exported
+	// (= protobuf) fields; scalars may be symbolic (the verdict is then a term).
+	reg("google.golang.org/protobuf/proto.Equal", func(in *Interp, fr *frame, a []Value) Value {
+		x, y := a[0].(Iface), a[1].(Iface)
+		if x.t == nil || y.t == nil {
+			return in.ts.Bool(x.t == nil && y.t == nil)
+		}
+		if !types.Identical(x.t, y.t) {
+			return in.ts.Bool(false)
+		}
+		return in.protoEqual(x.t, x.v, y.v)
 	})
 
 	reg("github.com/buildbarn/bb-storage/pkg/util.DecimalExponentialBuckets", func(in *Interp, fr *frame, a []Value) Value {
@@ -1021,4 +1038,54 @@ func sortedKeys(m map[string]bool) []string {
 	}
 	sort.Strings(out)
 	return out
+}
+
+
+// protoEqual compares two values of a generated protobuf type structurally.
+func (in *Interp) protoEqual(t types.Type, x, y Value) *Term {
+	switch u := t.Underlying().(type) {
+	case *types.Pointer:
+		xp, ok1 := x.(*Value)
+		yp, ok2 := y.(*Value)
+		if !ok1 || !ok2 {
+			unsupported("proto.Equal on %T / %T", x, y)
+		}
+		if xp == nil || yp == nil {
+			return in.ts.Bool(xp == nil && yp == nil)
+		}
+		return in.protoEqual(u.Elem(), *xp, *yp)
+	case *types.Struct:
+		xs, ys := x.(Struct), y.(Struct)
+		acc := in.ts.Bool(true)
+		for i := 0; i < u.NumFields(); i++ {
+			if !u.Field(i).Exported() {
+				continue // state, sizeCache, unknownFields
+			}
+			acc = in.ts.And(acc, in.protoEqual(u.Field(i).Type(), xs[i], ys[i]))
+		}
+		return acc
+	case *types.Slice:
+		xs, ys := x.(Slice), y.(Slice)
+		if len(xs.a) != len(ys.a) {
+			return in.ts.Bool(false)
+		}
+		acc := in.ts.Bool(true)
+		for i := range xs.a {
+			acc = in.ts.And(acc, in.protoEqual(u.Elem(), xs.a[i], ys.a[i]))
+		}
+		return acc
+	case *types.Basic:
+		return in.equals(t, x, y)
+	case *types.Interface:
+		xi, yi := x.(Iface), y.(Iface)
+		if xi.t == nil || yi.t == nil {
+			return in.ts.Bool(xi.t == nil && yi.t == nil)
+		}
+		if !types.Identical(xi.t, yi.t) {
+			return in.ts.Bool(false)
+		}
+		return in.protoEqual(xi.t, xi.v, yi.v)
+	}
+	unsupported("proto.Equal on a field of type %s", t)
+	return nil
 }
